@@ -6,6 +6,7 @@ Replay: genhkl_unique and genhkl_all with output_stl True and False, tools and l
 """
 import collections
 import math
+import os
 import random
 import warnings
 
@@ -20,6 +21,73 @@ ASSUME = c05.ASSUME + [
 
 def orbit(tab, h):
     return set(gl.expand(tab, [h]))
+
+
+def exhaustive_segments(v, tabs, wd, rng):
+    """thorough: one symmorphic group per (Laue class, setting) x EVERY conforming integer reciprocal metric of a box x two shells:
+    TLC decides whether the segment tables are sound asymmetric units (one member per Laue family, expansion = allowed set) and
+    where the early exit loses families; returns (states, transitions, instances, unsound, early)"""
+    import itertools
+    reps = {}
+    for i, t in enumerate(tabs):
+        k = (t["Laue"], t["cell_choice"] == "rhombohedral")
+        if k not in reps or t["nsymop"] < tabs[reps[k]]["nsymop"]:
+            reps[k] = i
+    inst = []
+    for (laue, rh), ti in sorted(reps.items()):
+        t = tabs[ti]
+        sysm = t["crystal_system"]
+        mets = set()
+        D = [3, 4, 5, 6]
+        if sysm == "triclinic":
+            for a, b, c in itertools.product(D, D, D):
+                for d, e, f in itertools.product([-2, -1, 0, 1, 2], repeat=3):
+                    mets.add((a, b, c, d, e, f))
+        elif sysm == "monoclinic":
+            for a, b, c in itertools.product(D, D, D):
+                for e in range(-3, 4):
+                    mets.add((a, b, c, 0, e, 0))
+        elif sysm == "orthorhombic":
+            for a, b, c in itertools.product(D + [7, 9], repeat=3):
+                mets.add((a, b, c, 0, 0, 0))
+        elif sysm == "tetragonal":
+            for a, c in itertools.product([3, 4, 5, 6, 7, 9], repeat=2):
+                mets.add((a, a, c, 0, 0, 0))
+        elif sysm in ("trigonal", "hexagonal") and not rh:
+            for m, c in itertools.product([1, 2, 3, 4], [2, 3, 4, 5, 7, 9]):
+                mets.add((2 * m, 2 * m, c, 0, 0, m))
+        elif rh:
+            for m in [4, 5, 6, 7, 8]:
+                for q in range(-m // 2 + 1, m):
+                    mets.add((m, m, m, q, q, q))
+        else:
+            for a in [3, 4, 5, 6, 7, 9]:
+                mets.add((a, a, a, 0, 0, 0))
+        for m in sorted(mets):
+            if gl.spd(list(m)) and gl.gram_ok(list(m)):
+                for K in (17, 30):
+                    inst.append({"t": ti + 1, "met": list(m), "K": K, "Kmin": 0})
+    sub = os.path.join(wd, "exh")
+    os.makedirs(sub, exist_ok=True)
+    import shutil
+    shutil.copy(os.path.join(wd, "XfabTables.tla"), sub)
+    common.write_data_module(sub, "GenHklCases", {"Instances": inst})
+    r = common.run_tlc("GenHkl", "MC_GenHkl.cfg", sub, timeout=6000, heap="20g")
+    unsound, early = [], 0
+    for x in r.records:
+        if x["ext"] != "sysabs":
+            continue
+        J = x["judge"]
+        I = inst[x["inst"] - 1]
+        if not J["unit_ops_sound"] or J["overlap"]:
+            unsound.append({"sg": tabs[I["t"] - 1]["no"], "laue": tabs[I["t"] - 1]["Laue"], "metric": I["met"], "K": I["K"]})
+        if c05.tset(x["H"]) != c05.tset(J["unit_sys"]):
+            early += 1
+    shutil.rmtree(sub, ignore_errors=True)
+    for u in unsound[:10]:
+        v.violation("segment table of Laue class %s is not a sound asymmetric unit on reciprocal metric %s (Q* <= %d): the traversal cannot "
+                    "return one reflection per Laue family there" % (u["laue"], u["metric"], u["K"]), u)
+    return r.distinct, r.generated, len(inst), len(unsound), early
 
 
 def run(tier, seed):
@@ -132,7 +200,12 @@ def run(tier, seed):
         v.notes.append("%d violating observations collapsed to %d" % (len(v.violations), len(seen)))
         v.violations = list(seen.values())
         v.max_replays = 60
-    cov = {"states": r.distinct, "transitions": r.generated, "traces_validated_against_impl": len(calls),
+    exh = None
+    if tier == "thorough":
+        exh = exhaustive_segments(v, tabs, wd, rng)
+    cov = {"states": r.distinct + (exh[0] if exh else 0), "transitions": r.generated + (exh[1] if exh else 0),
+           "exhaustive_segment_soundness": None if exh is None else {"instances": exh[2], "unsound": exh[3], "instances_where_early_exit_loses_families": exh[4]},
+           "traces_validated_against_impl": len(calls),
            "instances": len(inst), "settings": len(tabs), "tlc_wall_s": round(r.wall, 1),
            "early_exit_instances_met": n_early, "exhaustive": False,
            "rule": "instance = (setting, conforming integer reciprocal metric, shell); genhkl_unique with and without "
